@@ -111,7 +111,7 @@ Record blockop := mkBlockOp {
   bo_meta_errs : list (list N * Z); bo_meta_default : Z;
   bo_brolist_errs : list (list N * Z); bo_brolist_default : Z;
   bo_chunk_errors : list (N * Z); bo_chunk_default : Z;
-  bo_compute_meta : Z; bo_unexpected : Z; bo_ok_total : Z; bo_ok_partial : Z;
+  bo_compute_meta : Z; bo_meta_catches_overflow : bool; bo_unexpected : Z; bo_ok_total : Z; bo_ok_partial : Z;
   bo_next_block : list N; bo_next_brother : list N
 }.
 
@@ -121,7 +121,7 @@ Definition ADVANCE_OP : blockop :=
             ADV_OP_BROTHER_CHUNK
             ADV_INIT_ERRS ADV_INIT_DEFAULT ADV_META_ERRS ADV_META_DEFAULT
             ADV_BROLIST_ERRS ADV_BROLIST_DEFAULT ADV_CHUNK_ERRORS ADV_CHUNK_DEFAULT
-            ADV_COMPUTE_META_RESULT RESP_ADV_ERROR_UNEXPECTED RESP_ADV_OK_TOTAL RESP_ADV_OK_PARTIAL
+            ADV_COMPUTE_META_RESULT ADV_COMPUTE_META_CATCHES_OVERFLOW RESP_ADV_ERROR_UNEXPECTED RESP_ADV_OK_TOTAL RESP_ADV_OK_PARTIAL
             ADV_NEXT_OPS_BLOCK ADV_NEXT_OPS_BROTHER.
 
 Definition UPD_OP : blockop :=
@@ -129,7 +129,7 @@ Definition UPD_OP : blockop :=
             UPD_OP_SUCCESS 0 0 0 0
             UPD_INIT_ERRS UPD_INIT_DEFAULT UPD_META_ERRS UPD_META_DEFAULT
             [] 0%Z UPD_CHUNK_ERRORS UPD_CHUNK_DEFAULT
-            UPD_COMPUTE_META_RESULT RESP_UPD_ERROR_UNEXPECTED RESP_UPD_OK_TOTAL 0%Z
+            UPD_COMPUTE_META_RESULT UPD_COMPUTE_META_CATCHES_OVERFLOW RESP_UPD_ERROR_UNEXPECTED RESP_UPD_OK_TOTAL 0%Z
             UPD_NEXT_OPS_BLOCK [].
 
 (* result of the operation: (True|False, code) -- only the code matters to the caller *)
@@ -145,13 +145,17 @@ Definition send_block_header (o : blockop) (is_brother : bool) (raw : option byt
   match rlp_mm_payload_size raw with
   | None => ret (inr (bo_compute_meta o))
   | Some mm =>
-      mmb <- of_opt (to_bytes_be 2 (Z.of_N mm)) OverflowError ;;
+      match to_bytes_be 2 (Z.of_N mm) with
+      | None => if bo_meta_catches_overflow o then ret (inr (bo_compute_meta o))
+                else raise (Py OverflowError)
+      | Some mmb =>
       cb <- (if bo_is_advance o then
                match get_coinbase_txn raw with
                | CbOk tx => match coinbase_tx_get_hash tx with
                             | Some h => ret (Some h) | None => ret None end
                | CbValueError => ret None
-               | CbAttributeError => raise (Py AttributeError)
+               | CbAttributeError => if COINBASE_LIST_IS_VALUEERROR then ret None
+                                     else raise (Py AttributeError)
                end
              else ret (Some [])) ;;
       match cb with
@@ -178,6 +182,7 @@ Definition send_block_header (o : blockop) (is_brother : bool) (raw : option byt
                                          | Some c => c | None => bo_chunk_default o end)))
               end
           end
+      end
       end
   end.
 
@@ -206,7 +211,10 @@ Fixpoint block_loop (o : blockop) (blocks : list (option bytes))
           rop <- idxM resp OFF_OPn ;;
           r2 <- (if bo_is_advance o && (rop =? bo_op_bro_list_meta o) then
                    bl <- of_opt (idx brothers 0) IndexError ;;
-                   cnt <- of_opt (to_bytes_be 1 (Z.of_nat (length bl))) OverflowError ;;
+                   match to_bytes_be 1 (Z.of_nat (length bl)) with
+                   | None => match ADV_BROCOUNT_OVERFLOW_RESULT with
+                             | Some c => ret (inr c) | None => raise (Py OverflowError) end
+                   | Some cnt =>
                    a <- on_error_result
                           (r <- send_command (bo_cmd o) (bo_op_bro_list_meta o :: cnt) ;;
                            (if (0 <? length bl)%nat then
@@ -219,6 +227,7 @@ Fixpoint block_loop (o : blockop) (blocks : list (option bytes))
                    match a with
                    | inr c => ret (inr c)
                    | inl r => send_brothers o bl r
+                   end
                    end
                  else ret (inl resp)) ;;
           match r2 with
@@ -257,7 +266,8 @@ Definition sort_brothers (bl : list (option bytes)) : option (list (option bytes
 Definition advance_blockchain (blocks : list (option bytes))
            (brothers : list (list (option bytes))) : M bo_result :=
   match all_some (map sort_brothers brothers) with
-  | None => raise (Py ValueError)
+  | None => match ADV_SORT_VALUEERROR_RESULT with
+            | Some c => ret (false, c) | None => raise (Py ValueError) end
   | Some sorted => do_block_operation ADVANCE_OP blocks sorted
   end.
 
